@@ -192,9 +192,15 @@ class Union():
         labels = np.argmax(p, axis=1)
         # If one of the clusters has less than n_points_min members, re-assign
         # the most likely members from the larger cluster to the smaller one.
-        if not np.all(np.bincount(labels) >= self.n_points_min):
-            label = np.argmin(np.bincount(labels))
+        if not np.all(np.bincount(labels, minlength=2) >= self.n_points_min):
+            label = np.argmin(np.bincount(labels, minlength=2))
             labels[np.argsort(-p[:, label])[:self.n_points_min]] = label
+            # If the re-assignment leaves the other cluster with too few
+            # points, don't split this bound.
+            if not np.all(np.bincount(labels, minlength=2) >=
+                          self.n_points_min):
+                self.block[index] = True
+                return self.split(allow_overlap=allow_overlap)
 
         new_bounds = []
         points = self.points_bounds[index]
